@@ -142,7 +142,7 @@ def e1plus_typed(level):
     logs = list(bl) + d1b
     inner_n = d1n if level else [e for i, e in enumerate(d1n) if keep_inner(e)]
     for inner in inner_n:
-        nums += one_above_numeric(inner, nl, [p] if level else [], consts if level else consts[1:3], muls if level else muls[:3], divs[:1] if not level else divs[:3])
+        nums += one_above_numeric(inner, nl, [p] if level else [], consts if level else consts[1:3], muls if level else muls[:3], divs[:2] if not level else divs[:3])
     for inner in d1b:
         nums += one_above_numeric(inner, nl[:1], [], consts[:1], muls[:2] if not level else muls[:4], divs[:1])
         logs += one_above_logic(inner, bl)
@@ -542,7 +542,11 @@ def nested_family():
     inners = [['max', [x, y]], ['min', [x, y]], ['abs', x], ['-', ['abs', x], num(1)], ['neg', ['min', [x, y]]],
               ['-', ['max', [x, num(0.5)]], y], ['abs', ['-', x, y]]]
     outers = [lambda e: ['abs', e], lambda e: ['max', [e, num(0.5)]], lambda e: ['min', [e, num(1)]], lambda e: ['neg', ['abs', e]],
-              lambda e: ['*', num(-2), ['abs', e]]]
+              lambda e: ['*', num(-2), ['abs', e]],
+              # sign-changing and scaling wrappers directly above a piecewise block: division and multiplication by
+              # negative / positive constants on either side, unary minus
+              lambda e: ['/', e, num(-2)], lambda e: ['/', e, num(2)], lambda e: ['*', e, num(-0.5)], lambda e: ['neg', e],
+              lambda e: ['/', ['abs', e], num(-1)]]
     profs = [pr for pr in PROFILES if pr[0] in ('straddle', 'int', 'mixed', 'signed')]
     out = []
     i = 0
